@@ -224,6 +224,46 @@ def r3_ignore_na(ctx):
                "flag forwarded" if ok else "failure cases reshaped with a constant ignore_na")
 
 
+def r3_polars_null_outputs_decided(ctx):
+    """polars aggregates skip nulls: `pl.col(K).all()` is true over [True, null] and `.filter(pl.col(K).not_())` drops the
+    null row.  So a null check output has to be *decided* before the verdict on every path: to True under ignore_na
+    (`K | K.is_null()`), to False otherwise (`fill_null(False)`).  A path that leaves it null makes ignore_na=False a no-op:
+    the function's answer for nulls is never counted, unlike on pandas."""
+    ix = ctx.ix
+    lcb = ix.cls(LCB)
+    f = lcb.lookup("postprocess_lazyframe_output")
+    if f is None:
+        raise AnalysisError("PolarsCheckBackend.postprocess_lazyframe_output missing")
+    ctx.touched(f)
+    cfg = cfg_of(f.node)
+    deciding, verdict = set(), set()
+    for st in function_stmts(f):
+        node = cfg.node_of(st)
+        if node is None or isinstance(st, (ast.If, ast.For, ast.While, ast.Try, ast.With)):
+            continue
+        calls = list(calls_in(st))
+        if any(callee_last(c) == "is_null" for c in calls) and any(isinstance(x, ast.BinOp) and isinstance(x.op, ast.BitOr) for x in ast.walk(st)):
+            deciding.add(node.id)
+        if any(callee_last(c) == "fill_null" and c.args and isinstance(c.args[0], ast.Constant) and c.args[0].value in (False, True) for c in calls):
+            deciding.add(node.id)
+        if any(callee_last(c) == "is_not_null" for c in calls) and any(isinstance(x, ast.BinOp) and isinstance(x.op, ast.BitAnd) for x in ast.walk(st)):
+            deciding.add(node.id)
+        if any(callee_last(c) == "all" for c in calls) or any(callee_last(c) == "not_" for c in calls):
+            verdict.add(node.id)
+    if not verdict:
+        raise AnalysisError("postprocess_lazyframe_output: verdict aggregation (.all()) not found")
+    path = cfg.must_pass(cfg.entry.id, verdict, deciding)
+    ok = path is None
+    where = ""
+    if path:
+        tests = [cfg.nodes[i] for i in path if cfg.nodes[i].kind == "test"]
+        where = "; ".join(f"`{txt(t.ast)[:40]}`" for t in tests)
+    ctx.ob("R3", f, "polars: a null check output is decided (True under ignore_na, False otherwise) before the verdict on every path", ok,
+           "every path to the verdict passes a null-deciding step" if ok else
+           f"a path (through {where or 'no test'}) reaches the verdict with null outputs undecided: `all()` skips them and the failure-case filter drops them, so "
+           "Check.gt(0, ignore_na=False) accepts [1.0, None, 3.0] on polars while pandas rejects row 1", f.loc(f.node))
+
+
 def _parents(n):
     from ..index import parent
     p = parent(n)
@@ -381,6 +421,7 @@ def run(ctx):
     r1_aliases(ctx)
     r2_element_wise(ctx)
     r3_ignore_na(ctx)
+    r3_polars_null_outputs_decided(ctx)
     r4_n_failure_cases(ctx)
     r4_runner_verdict(ctx)
     r5_raise_warning(ctx)
